@@ -5,6 +5,16 @@ HERE = os.path.dirname(os.path.dirname(os.path.abspath(__file__)))
 
 TECH = "deterministic simulation with fault injection"
 CLAIMED = {
+ "C10": dict(
+   level="fault_enumeration", design="5/C10",
+   text="Seeded fault injection into a valid byte stream on one victim connection (header length 0..len+8, type 0..255, version, any aligned 16-bit body word, truncation+EOF at any offset, byte flips, random streams) while sibling connections carry known-good traffic, on the controller side (real task loop) and the switch side (two real switches on one IO loop). Oracle: deterministic traced-line termination budget, loop tasks alive, siblings answered exactly, fresh connection handshakes, every delivered/answered message is a declared-length frame of the damaged stream in order, declared valid echo requests answered unless the connection closed.",
+   note="Faults are sampled per run (one fault per run); the enumeration over (type, field, value) is not proven complete; termination judged by a line budget proportional to the stream length.",
+   technique=TECH + ": stream-corruption fault injection with containment, liveness and termination-budget oracles"),
+ "C17": dict(
+   level="exploration", design="5/C17",
+   text="Seeded search over port_status histories (add/modify incl. rename and re-address/delete/re-add/delete-unknown over 4 ports) and stats replies split into 1-6 parts interleaved with other messages, abandoned partial replies, part-by-part interleaving and connection loss, over a segmented stream into the real Connection; after every message the full mapping API of con.ports/original_ports is compared with a model dict and aggregated stats events with the parts sent.",
+   note="Unique names/addresses among current ports; entries identified by a tag field; one open known finding (part-by-part interleaved multipart replies).",
+   technique=TECH + ": message-history search against a port-view dict model and a per-xid reassembly model"),
  "C02": dict(
    level="exploration", design="5/C02",
    text="Seeded search over message sequences x segmentations of the byte stream (every byte, cuts at header offsets, message boundary +-1, read-size multiples +-1, random k-cuts) x segment delays x partial recv()s, for the controller-side Connection.read under the real OpenFlow_01_Task and the switch-side OFConnection.read under the real IO loop; after every segment the delivered (type, xid) sequence must equal the completely arrived messages and the receive buffer the incomplete tail.",
